@@ -1,5 +1,6 @@
 pub mod capi;
 pub mod child;
+pub mod cypher;
 pub mod dump;
 pub mod r#gen;
 pub mod model;
